@@ -506,6 +506,17 @@ func TestLeastActiveModel(t *testing.T) {
 			}
 		}
 		r := newRig(kind, w)
+		// the plain least-active balancer reads the client's server list at every call: the list may shrink and grow
+		// between calls, also while calls are in flight ("one of the currently configured servers")
+		cur := n
+		allURIs := make([]string, n)
+		for i := range allURIs {
+			allURIs[i] = "mock://" + host(i)
+		}
+		if kind == "leastactive" && n > 1 && rapid.Bool().Draw(rt, "startSmall") {
+			cur = rapid.IntRange(1, n-1).Draw(rt, "cur0")
+			r.client.SetURI(allURIs[:cur]...)
+		}
 		entered := make(chan *laCall, 1)
 		var pendingMu sync.Mutex
 		var nextCall *laCall
@@ -551,14 +562,14 @@ func TestLeastActiveModel(t *testing.T) {
 					rt.Fatalf("%s", failed)
 				}
 				min := math.MaxInt32
-				for _, a := range inflight {
+				for _, a := range inflight[:cur] {
 					if a < min {
 						min = a
 					}
 				}
 				trace = append(trace, "start->"+c.host)
-				if !r.valid(c.host) {
-					failed = fmt.Sprintf("selected %q which is not a configured server", c.host)
+				if !r.valid(c.host) || r.idx(c.host) >= cur {
+					failed = fmt.Sprintf("selected %q which is not one of the %d currently configured servers", c.host, cur)
 				} else if inflight[r.idx(c.host)] != min {
 					failed = fmt.Sprintf("picked %s with %d requests in flight while the fewest is %d (in-flight vector %v)", c.host, inflight[r.idx(c.host)], min, inflight)
 				}
@@ -569,6 +580,18 @@ func TestLeastActiveModel(t *testing.T) {
 				}
 				inflight[r.idx(c.host)]++
 				open = append(open, c)
+			},
+			"resize": func(rt *rapid.T) {
+				if kind != "leastactive" || n < 2 {
+					rt.Skip("fixed server list")
+				}
+				m := rapid.IntRange(1, n).Draw(rt, "size")
+				if m == cur {
+					rt.Skip("same size")
+				}
+				r.client.SetURI(allURIs[:m]...)
+				trace = append(trace, fmt.Sprintf("servers:%d->%d", cur, m))
+				cur = m
 			},
 			"finish": func(rt *rapid.T) {
 				if len(open) == 0 {
@@ -586,6 +609,10 @@ func TestLeastActiveModel(t *testing.T) {
 		})
 		ev.S.Begin("leastactive-model", desc())
 		finishAll()
+		if cur != n {
+			r.client.SetURI(allURIs...)
+			cur = n
+		}
 		r.mu.Lock()
 		r.hold = nil
 		r.mu.Unlock()
@@ -595,7 +622,13 @@ func TestLeastActiveModel(t *testing.T) {
 				nt = true
 			}
 		}
-		ev.S.Case("leastactive-model", desc(), nt && n >= 2, "kind="+kind)
+		resized := false
+		for _, s := range trace {
+			if strings.HasPrefix(s, "servers:") {
+				resized = true
+			}
+		}
+		ev.S.Case("leastactive-model", desc(), nt && n >= 2, "kind="+kind, fmt.Sprintf("la-resized=%v", resized))
 		if p := spreadCheck(r, "after the trace"); p != "" {
 			ev.S.Violation("leastactive-model", "TestLeastActiveModel", desc(), p, nil)
 			rt.Fatalf("%s: %s", desc(), p)
